@@ -66,6 +66,19 @@ def run_sweep(case: Dict[str, Any]) -> Dict[str, Any]:
             a, b = (int(x) for x in l.link_id.split("-"))
             adj.setdefault(a, {})[b] = l.distance_km / l.speed_kmph * 3600.0
         cnt["c14_links_with_default_speed"] = sum(1 for u, v, d in G_edges_missing_speed(case["net"]))
+        if case["net"].get("parallel"):
+            # two streets between the same junctions share one link id, so the link table cannot say which one a hop uses:
+            # here the time of a hop is what the statement calls it, the best edge between the two junctions in the graph
+            # (length over speed, or over the default speed where the edge has none)
+            from hivemon.gen import graph as G
+
+            dflt = float(case["net"].get("default_speed_kmph", 40.0))
+            adj = {}
+            for a, b, d in G.grid(case["net"]).edges(data=True):
+                w = d["length"] / 1000.0 / float(d.get("speed_kmph", dflt)) * 3600.0
+                if w < adj.setdefault(a, {}).get(b, float("inf")):
+                    adj[a][b] = w
+            cnt["c14_parallel_edge_pairs"] = sum(1 for a, b, k in G.grid(case["net"]).edges(keys=True) if k > 0)
     else:
         adj = adjacency(rn.graph)  # shipped graphs state their own travel_time per edge
     by_tail: Dict[int, list] = collections.defaultdict(list)  # links leaving node
@@ -135,6 +148,9 @@ def build_cases(tier, seed):
             net["stubs"] = rnd.choice([0.2, 0.4])
         if j % 3 == 1:
             net.update({"missing_speed": rnd.choice([0.2, 0.5]), "default_speed_kmph": rnd.choice([10.0, 100.0, 130.0])})
+        if j % 6 == 5:
+            net.update({"parallel": rnd.choice([0.1, 0.25]), "parallel_differs": True})
+            net.pop("stubs", None)
         cases.append({"engine": "c14_sweep", "id": f"C14-grid{j}", "seed": seed * 1000 + j, "net": net, "n": per})
     if tier == "quick":
         for j in range(8):
